@@ -367,6 +367,9 @@ func init() {
 			} else if k -= len(c06BatchCatalogue); k < c06ExactCount() {
 				runC06ExactMsize(rcx, k)
 				return
+			} else if k -= c06ExactCount(); k < c06ParkedCount() {
+				runC06Parked(rcx, k)
+				return
 			}
 			if rcx.Plan.Choose(6) == 0 {
 				runPair(rcx, pairCatalogue[rcx.Plan.Choose(len(pairCatalogue))])
@@ -374,9 +377,9 @@ func init() {
 			}
 			runRandomWorkload(rcx, workloadOpts{Flush: true, BadFrames: rcx.Index%2 == 1})
 		},
-		Directed: func(string) int { return len(pairCatalogue) + len(c06BatchCatalogue) + c06ExactCount() },
+		Directed: func(string) int { return len(pairCatalogue) + len(c06BatchCatalogue) + c06ExactCount() + c06ParkedCount() },
 		Quick:    24000, Thorough: 1600000, QuickSecs: 60, ThorSecs: 1500,
-		Rule: "directed: same pair catalogue as C07 (A parked in backend, B issued): B must be answered while A is parked unless the File contract orders it after A; batches: 3 or 4 requests on files of their own (read/write/getattr/setattr/fsync/open in 7 combinations, on one or two connections) ALL parked inside their backend calls together, unrelated traffic served meanwhile, then released in EVERY order: each release answers exactly the released request; request frames of exactly msize and msize-1 bytes; random: pipelined peers, a tenth of the requests Tflush (of a request in flight, an answered, an idle or the own tag), every other request re-using the tag that was just answered, small reply pipe with slow reader, in half of the runs interspersed with well-delimited undecodable frames (unknown type, short body), whose Rlerror is a reply frame like any other. Wire monitor on the reply stream: every frame contiguous (single writer task), exactly one reply per decodable request with free tag, same tag, matching R-type or Rlerror, no unsolicited reply. Non-trivial/distinct as C07.",
+		Rule: "directed: same pair catalogue as C07 (A parked in backend, B issued): B must be answered while A is parked unless the File contract orders it after A; batches: 3 or 4 requests on files of their own (read/write/getattr/setattr/fsync/open in 7 combinations, on one or two connections) ALL parked inside their backend calls together, unrelated traffic served meanwhile, then released in EVERY order: each release answers exactly the released request; request frames of exactly msize and msize-1 bytes; with a request parked in the backend: unrelated traffic behind one or two waiting Tflush, and the peer closing its sending direction (the reply still arrives); random: pipelined peers, a tenth of the requests Tflush (of a request in flight, an answered, an idle or the own tag), every other request re-using the tag that was just answered, small reply pipe with slow reader, in half of the runs interspersed with well-delimited undecodable frames (unknown type, short body), whose Rlerror is a reply frame like any other. Wire monitor on the reply stream: every frame contiguous (single writer task), exactly one reply per decodable request with free tag, same tag, matching R-type or Rlerror, no unsolicited reply. Non-trivial/distinct as C07.",
 		Assume: []string{"undecodable frames and requests re-using an in-flight tag are exempt, as the statement says", "progress of B is asserted only while no write/global request is pending (RWMutex writer preference legitimately delays readers)"},
 		Real:   []string{"p9.Server", "p9 path tree / fid table / handlers", "p9 wire codec"},
 		Stub:   []string{"transport (simnet pipes)", "backend tree (simfs)", "raw 9P peer (refcodec)"},
